@@ -148,7 +148,8 @@ struct PkRun {
             if (memcmp(a.pcm[c].data(), b.pcm[c].data(), (size_t)m * 4)) pre = false;
             if (memcmp(a.pcm[c].data() + (a.n - m), b.pcm[c].data() + (b.n - m), (size_t)m * 4)) suf = false;
           }
-          check(pre || suf, "locality", "samples-differ-after-disturbance", fmt("experiment %s: packet %d (position re-synchronised here): %d vs %d samples and neither a common prefix nor a common suffix", kinds.c_str(), d.orig, a.n, b.n), facts);
+          // (the end is only ever cut at an end-of-stream packet; anywhere else a count that ran ahead can only cost the beginning of the block)
+          check(d.eos ? (pre || suf) : suf, "locality", "samples-differ-after-disturbance", fmt("experiment %s: packet %d (position re-synchronised here, eos=%d): %d vs %d samples and %s", kinds.c_str(), d.orig, (int)d.eos, a.n, b.n, d.eos ? "neither a common prefix nor a common suffix" : "no common suffix (only the beginning of a block may be trimmed at a packet that does not end the stream)"), facts);
           if (a.n != b.n) g_stats.inc("probe.trim_at_resync_tolerated");
         }
         g_stats.inc("probe.local_chunks_compared");
